@@ -275,7 +275,7 @@ theorem eq_applyTo (a b : RD) (ha : Normalised a) (hb : Normalised b) (h : RDM.e
   rw [e]
   have hw' : ∀ ret, applyWeekday a.weekday ret = applyWeekday b.weekday ret :=
     applyWeekday_of_wdEq _ _ hw
-  unfold applyTo
+  unfold applyTo applyTail
   simp only [hw']
   rfl
 
